@@ -201,7 +201,10 @@ class Check:
             tag = '' if REPO == '/repo' else f'mut{os.getpid()}-'
             for name in os.listdir(rdir):
                 if name.startswith(f'{tag}{tier}-') or (REPO == '/repo' and name.startswith('mut')):
-                    os.unlink(os.path.join(rdir, name))
+                    try:
+                        os.unlink(os.path.join(rdir, name))
+                    except FileNotFoundError:       # another run of the same check removed it
+                        pass
         self._known_printed = set()
 
     # -- TLC -----------------------------------------------------------------------------------
